@@ -9,7 +9,7 @@ from .. import graph_hist as H
 from .. import histprops as HP
 
 LEVEL = 'proof'
-NEEDS = ['SFMutators', 'Extracted', 'SourceFacts', 'Base', 'Names', 'Graph', 'GraphObs', 'GraphTS', 'GraphInv', 'GraphAtomicLemmas', 'GraphAtomicProofs']
+NEEDS = ['PyRtMut', 'MutGenRollback', 'MutGenRollbackProofs', 'CorrMutGenRollback', 'SFMutators', 'Extracted', 'SourceFacts', 'Base', 'Names', 'Graph', 'GraphObs', 'GraphTS', 'GraphInv', 'GraphAtomicLemmas', 'GraphAtomicProofs']
 SINGLE = {'add_node', 'add_node_obj', 'add_node_vl', 'delete_node', 'replace_node', 'add_edge', 'add_time_edge',
           'delete_edge', 'change_edge_type', 'replace_edge'}
 CELLS = Counter()
@@ -148,10 +148,14 @@ def off_model_atomicity(run, tier, seed):
         run.violation(b, note=b['why'][:200])
     return bad
 
+# the code translated from the source on every run: when the translator REFUSES the current source the run falls back to the
+# hand-written model and its correspondence (harness/main.py)
+GEN_SOFT = dict(generated=['MutGenRollback'], modules=['MutGenRollback', 'MutGenRollbackProofs', 'CorrMutGenRollback'])
+
 
 def check(run, tier, seed):
     CELLS.clear()
-    HP.history_property(run, tier, seed, pid='C03', oracle=unchanged, n_quick=240, n_thorough=4000,
+    cases, _mism, _bad = HP.history_property(run, tier, seed, pid='C03', oracle=unchanged, n_quick=240, n_thorough=4000,
                         gen_factory=lambda rng, kind: ErrGen(rng, kind, True),
                         describe='Error-seeking histories (calls that close cycles, reverse or duplicate existing edges, re-lag '
                                  'time-series nodes against time, name unparsable nodes) + exhaustive short histories; the full '
@@ -159,6 +163,29 @@ def check(run, tier, seed):
     run.coverage['raising_calls_by_mutator_and_error'] = {f'{k[0]}/{k[1]}': v for k, v in sorted(CELLS.items())}
     run.coverage['raising_single_element_calls'] = sum(CELLS.values())
     off_model_atomicity(run, tier, seed)
+    translated_mutators(run, cases)
+
+
+def translated_mutators(run, cases):
+    """the rollback mutators GENERATED from causal_graph.py on this run (MutGenRollback.v), executed inside Coq on the same histories:
+    every change_edge_type / replace_edge / delete_node / delete_edge step runs through the generated code, outcome and observation after
+    every step are compared with what the library showed"""
+    import os
+    if os.environ.get('VERIF_TRANSLATOR_REFUSED') == '1':
+        run.coverage['translated_source_cases'] = 0
+        return
+    from .. import mutgencorr
+    cs = [c for c in cases if any(o[0] in mutgencorr.TRANSLATED for o in c['ops'])][:400]
+    steps = sum(1 for c in cs for o in c['ops'] if o[0] in mutgencorr.TRANSLATED)
+    rejected = sum(1 for c in cs for o, code in zip(c['ops'], c['outcomes']) if code and o[0] in mutgencorr.TRANSLATED)
+    try:
+        bad = mutgencorr.check_cases_against_generated(cs)
+        detail = '' if not bad else f'{len(bad)} diverging histories; first: step {bad[0][1]} of {cs[bad[0][0]]["ops"][:bad[0][1] + 1]!r}'[:480]
+    except Exception as e:  # noqa: BLE001
+        bad, detail = [None], f'the generated definitions could not be evaluated: {type(e).__name__}: {str(e)[-300:]}'
+    run.coverage['translated_source_cases'] = dict(histories=len(cs), steps_run_by_generated_code=steps, of_which_rejected_calls=rejected)
+    run.oblige(f'correspondence: translated causal_graph.py rollback mutators (MutGenRollback.v) == implementation on {len(cs)} histories, '
+               f'{steps} steps of which {rejected} rejected calls', not bad, detail)
 
 
 def replay(run, path):
